@@ -1300,7 +1300,6 @@ func checkListSplits(c *Ctx, rule string, pk *packages.Package) {
 	}
 }
 
-
 // checkMultiNameFields: parseJSONTag names a field after the first identifier of its declaration; every
 // caller that uses that name for a field it got from go/types must take the default from the types.Var
 // (`A, B string` declares two fields).
@@ -1367,7 +1366,6 @@ func checkMultiNameFields(c *Ctx, rule string, pk *packages.Package) {
 		c.Unk(rule, "codescan › callers of parseJSONTag that name fields", "", fmt.Sprintf("%d found, expected the model, parameter and response builders", n))
 	}
 }
-
 
 // checkPostDeclsCollected: a schemaBuilder records in postDecls the declarations it referenced by
 // $ref; whoever creates one and builds with it must collect them, or the document ends up with a
